@@ -384,6 +384,14 @@ def normalise(sc, lg):
     # derived float facts use the working dtype exactly as the code does
     call_t = {}
     for e in evs:
+        if e["e"] == "SolRemove" and e.get("t") is not None:
+            e["t"] = np.asarray(e["t"]).astype(dt)
+        if e["e"] == "SolAdd":
+            # piece times in the working precision: an implicit method may hand back float64 times for a float32 system, and the
+            # buffer rounds the recorded time on assignment (same rule as for `_yEnd` below)
+            for k in ("t", "t0", "t1"):
+                if e.get(k) is not None:
+                    e[k] = np.asarray(e[k]).astype(dt)
         for k in ("t", "h", "dT", "newDt", "target", "prev", "next", "dt", "t0", "t1"):
             if k in e and e[k] is not None and not isinstance(e[k], (list, str)):
                 it.see(e[k])
@@ -400,6 +408,7 @@ def normalise(sc, lg):
         if fl:
             for x in fl["t"]:
                 it.see(x)
+            fl["solT"] = [np.asarray(x).astype(dt) for x in fl["solT"]]
             for x in fl["solT"]:
                 it.see(x)
             for (x, _) in fl["events"]:
